@@ -11,7 +11,7 @@
   This file is hand written and Mathlib-free.  It contains what the generated code refers to:
   the class, the return-value type, Python's `min`/`max`/`sum`, `np.dot`, and the model of
   `IAPWS97.power_array` (zero-initialised array of length `1 + npos + nneg`, Python negative
-  indexing, the multiplication chain, exactly as written).
+  indexing, the multiplication chain, exactly as written; a zero base gives `p[-1] = +inf`).
 -/
 namespace Model.Thermo
 
@@ -106,7 +106,8 @@ def chainStep (p : List K) (c : Int × List Int) : List K :=
 /-- `IAPWS97.power_array(value, combination)` -/
 def powerArray (value : K) (comb : List (Int × List Int)) : List K :=
   let n := 1 + chainNpos comb + chainNneg comb
-  let inv : K := ofInt 1 / value
+  -- `p[-1] = 1.0 / value if value != 0. else np.inf`  (`value != 0.` is false exactly for ±0, true for NaN)
+  let inv : K := if le value (ofInt 0) && le (ofInt 0) value then ofInt 1 / ofInt 0 else ofInt 1 / value
   let p : List K := List.replicate n (ofInt 0)
   let p := PArr.set (PArr.set (PArr.set p 0 (ofInt 1)) 1 value) (-1) inv
   comb.foldl chainStep p
